@@ -3,13 +3,21 @@
 Theorems (coq/props/C14.v): history independence of a run that resets the shared barrier cell (and necessity of
 the reset), transparency of the inert stages -I inserts, independence of insertion-ordered grouping from the hash
 function.  What lives in the runtime is exercised here, not proved:
-  * seeds: the CLI is run as a subprocess under several PYTHONHASHSEEDs; traceEvents and all CSV files must be
-    byte-identical (output-name / command-line metadata excluded);
+  * seeds: the CLI is run as a subprocess under several PYTHONHASHSEEDs; traceEvents and all CSV / TXT tables must be
+    byte-identical (output-name / command-line metadata excluded).  Scenario kinds: device kernels + host slices (half
+    of the multi-rank ones with chain all-reduces), torch profiles, C20's communication sequences (imported generator:
+    parts that name peers in args.Peer / list them in args.Peers) and device multicasts over 3..6 ranks (Set BcList +
+    one Xseg part per peer + Data under one request number) - the last two mostly with --comm_summarize_seq, so that
+    summarized slices listing two and more peers are exported; one compiler log for all ranks or one per rank
+    (-c a.log,b.log,...);
   * -I on/off: same comparison;
   * histories: a worker process runs a sequence of scenarios through the documented Acelyzer API in ONE Python
-    process - other scenarios first, scenarios that abort mid-pipeline, scenarios whose input files collide in the
-    job id with the target's - then the target; its results must equal those of a fresh process.  The worker also
-    reports what the module-level barrier held when each run started / when its processor was built.
+    process - other scenarios first (any of the kinds above, also the target itself), scenarios that abort
+    mid-pipeline, scenarios whose input files collide in the job id with the target's - then the target; the runs of
+    one process write to the same -o (the previous results removed before each run) or each to its own.  The output
+    directory is copied AT THE MOMENT the target's run() returns: every file next to the output must be there by then
+    and must equal the one the same run leaves in a fresh process, and no file of an earlier run may show up.  The
+    worker also reports what the module-level barrier held when each run started / when its processor was built.
 Coq-evaluated tie: the real EventProcessor WITH intermediate= (duplicate_and_hold after every stage) against the
 model WITHOUT those stages (C14Model.run_plain_val) on random stage graphs.
 """
@@ -34,7 +42,8 @@ MANIFEST = {
             "the hash function when it is injective on the keys in use (C14_hash_independent). NOT provable in a model and "
             "therefore exercised by paired executions of the real tool: CPython's hash randomisation (runs under several "
             "PYTHONHASHSEEDs), -I on/off, and in-process run histories through the Acelyzer API including aborted runs and "
-            "job-id collisions between runs, compared byte for byte on traceEvents and CSV files.",
+            "job-id collisions between runs, runs sharing one output name, one compiler log per rank, summarized multicast "
+            "sequences - compared byte for byte on traceEvents and the CSV/TXT tables as they are when run() returns.",
     "note": "Trusted: Coq kernel + vm_compute; the pipeline model of Pipeline.v (tied by C03 and, with intermediate=, by this "
             "check); the canonicalisation (only otherData/command line/output names are dropped). Runtime behaviour the model "
             "cannot exhibit: real hash randomisation, set iteration order, GC timing of __del__ output, module-level "
@@ -48,16 +57,20 @@ MODEL_TARGETS = ["theories/C14Model.vo"]
 THEOREMS = ["C14_history_independent", "C14_history_needs_reset", "C14_intermediate_transparent", "C14_hash_independent"]
 ALLOWED_AXIOMS = []
 TRUSTED = [
-    "paired-run comparison: json traceEvents (sorted keys) and every CSV written next to the output; otherData is dropped",
+    "paired-run comparison: json traceEvents (sorted keys, list order kept) and every CSV/TXT written next to the output; "
+    "otherData is dropped; in histories the output directory is read at the moment run() returns (copy made by the worker)",
     "modelled, not verified: CPython hash randomisation, dict/set iteration, GC timing, pandas/CSV formatting",
 ]
 ASSUMPTIONS = [
-    "well-formed FLEX scenarios from harness/common/scenario.py (integer pids/tids, one rank per file)",
+    "well-formed FLEX scenarios from harness/common/scenario.py + collectives.py (integer pids/tids, one rank per file), "
+    "C20's host-level communication sequences (props/c20.py gen_e2e), small torch profiles",
+    "with one compiler log per rank the list has exactly one entry per rank (pids 0..R-1)",
+    "between two runs of one process that use the same -o the user removes the previous results",
     "the documented Acelyzer API: Acelyzer(argv).run() per run",
 ]
 
 WORKER = r'''
-import sys, os, json, io, contextlib, traceback
+import sys, os, json, io, contextlib, traceback, shutil
 sys.path.insert(0, os.path.join(os.environ["AIU_REPO"], "src"))
 from aiu_trace_analyzer.core.acelyzer import Acelyzer
 import aiu_trace_analyzer.core.acelyzer as acel
@@ -73,6 +86,12 @@ acel.processor.EventProcessor = Probe
 for step in plan:
     os.chdir(step["cwd"])
     report.append({"hold_before_run": len(barrier._main_barrier_context.hold)})
+    if step.get("out"):
+        # the user removes the results of the previous analysis before starting the next one with the same -o
+        os.makedirs(step["out"], exist_ok=True)
+        for fn in os.listdir(step["out"]):
+            if os.path.isfile(os.path.join(step["out"], fn)):
+                os.remove(os.path.join(step["out"], fn))
     sink = io.StringIO()
     try:
         with contextlib.redirect_stdout(sink), contextlib.redirect_stderr(sink):
@@ -81,12 +100,15 @@ for step in plan:
     except BaseException as e:
         report[-1]["exc"] = type(e).__name__
     report[-1]["hold_after_run"] = len(barrier._main_barrier_context.hold)
+    if step.get("snap"):
+        # what is next to the output at the moment run() has returned (nothing else happens in between)
+        shutil.copytree(step["out"], step["snap"])
 json.dump(report, open(sys.argv[2], "w"))
 '''
 
 
 def canon(outdir):
-    """canonical result of one run: traceEvents + CSV texts"""
+    """canonical result of one run: traceEvents + the text of every CSV / TXT table written next to the output"""
     res = {}
     if not os.path.isdir(outdir):
         return {"missing": True}
@@ -100,7 +122,7 @@ def canon(outdir):
                 continue
             ev = d["traceEvents"] if isinstance(d, dict) else d
             res[fn] = json.dumps(ev, sort_keys=True)
-        elif fn.endswith(".csv"):
+        elif fn.endswith(".csv") or fn.endswith(".txt"):
             res[fn] = open(p).read()
     return res
 
@@ -168,36 +190,119 @@ def torch_scn(r):
     return s
 
 
-def write_scn(r, d, names=None, torch=False, **kw):
+def comm_scn(r):
+    """host-level communication slices from C20's end-to-end generator (used by import): several jobs per rank,
+    sequences ("SenRdma_<n> ..." parts sharing a number) interleaved in time, the parts naming peers in args.Peer and
+    listing them in args.Peers (lists, comma separated strings): a multicast sequence names two or more peers"""
+    from props import c20
+    case = c20.gen_e2e(r)
+    s = scenario.Scenario()
+    s.freq, s.ranks = 1024.0, 1 + max(f["pid"] for f in case["files"])
+    tmp = tempfile.mkdtemp(prefix="c14c_")
+    try:
+        for p in c20.write_files(case, tmp):
+            s.files[os.path.relpath(p, tmp)] = json.load(open(p))
+    finally:
+        shutil.rmtree(tmp, ignore_errors=True)
+    s.meta["comm"] = True
+    s.meta["comm_opts"] = [o for o in case["opts"] if o in ("--flow", "--keep_names")]
+    return s
+
+
+def write_scn(r, d, names=None, torch=False, kind=None, **kw):
+    """kind: None (device kernels + host slices, half of the multi-rank ones with chain all-reduces), "torch",
+    "comm" (C20's sequences), "mcast" (3..6 ranks with chain all-reduces: the last rank of a group multicasts to all
+    the others - Set BcList + one Xseg part per peer + Data, one request number), "mlog" (2..4 ranks, analysed with one
+    compiler log per rank)"""
     if torch:
-        s = torch_scn(r)
-        os.makedirs(os.path.join(d, "in"), exist_ok=True)
-        for fn, evs in s.files.items():
-            json.dump(evs, open(os.path.join(d, "in", fn), "w"))
+        kind = "torch"
+    if kind in ("torch", "comm"):
+        s = torch_scn(r) if kind == "torch" else comm_scn(r)
+        _materialise(d, s.files)
         return s, ",".join("in/" + fn for fn in s.files)
+    if kind == "mcast":
+        kw.setdefault("ranks", r.choice([3, 4, 4, 5, 6]))
+    elif kind == "mlog":
+        kw.setdefault("ranks", r.choice([2, 2, 3, 4]))
     s = scenario.gen_scenario(r, **kw)
-    if s.ranks >= 2 and r.random() < 0.5:
+    if kind == "mcast":
+        collectives.add_chain_allreduce(r, s, n_groups=r.choice([1, 2, 3]))
+        s.meta["mcast"] = True
+    elif s.ranks >= 2 and r.random() < 0.5:
         collectives.add_chain_allreduce(r, s, n_groups=r.choice([1, 2]))
+    if kind == "mlog":
+        s.meta["mlog"] = True
     if names:   # rename the files (job ids derive from the path string)
         s.files = {names[i]: v for i, (k, v) in enumerate(s.files.items())}
-    os.makedirs(os.path.join(d, "in"), exist_ok=True)
-    for fn, evs in s.files.items():
-        json.dump(evs, open(os.path.join(d, "in", fn), "w"))
+    _materialise(d, s.files)
     if len(s.files) >= 2 and all(fn.startswith("rank") for fn in s.files) and r.random() < 0.3:
         return s, "in/rank*.json"          # a wildcard instead of the explicit list (documented -i syntax)
     return s, ",".join("in/" + fn for fn in s.files)
+
+
+def scn_opts(r, s):
+    """the options of one scenario (the same in all paired executions)"""
+    if s.meta.get("comm"):
+        o = ["--disable_tb"] + list(s.meta["comm_opts"])
+        if r.random() < 0.85:
+            o.append("--comm_summarize_seq")
+        if r.random() < 0.2:
+            o.append("-M")
+        return o
+    o = gen_opts(r)
+    if s.meta.get("mcast") and "--comm_summarize_seq" not in o and r.random() < 0.9:
+        o.append("--comm_summarize_seq")
+    if s.meta.get("mlog") and "-C" in o and "rcu_util" not in o:
+        o.insert(o.index("-C") + 1, "rcu_util")     # (without -C the default counters include rcu_util)
+    return o
+
+
+def comp_logs(s, d, r):
+    """the -c argument of a scenario: ONE compiler log for all ranks or, for multi-rank scenarios, a comma separated
+    list with one log per rank (documented: "Comma-separated list of per-rank" logs, sorted by rank).  Decided and
+    generated once per scenario (texts kept in s.meta["logs"]), written into every directory the scenario is run from"""
+    if "clog" not in s.meta:
+        multi = s.ranks >= 2 and (s.meta.get("mlog") or r.random() < 0.35)
+        tmp = tempfile.mkdtemp(prefix="c14l_")
+        try:
+            if not multi:
+                scenario.compiler_log(s, os.path.join(tmp, "l"), r)
+                logs = {"in/comp.log": open(os.path.join(tmp, "l")).read()}
+            else:
+                logs = {}
+                same = r.random() < 0.75       # the same model compiled for every rank / per-rank tables that differ
+                for k in range(s.ranks):
+                    if k == 0 or not same:
+                        scenario.compiler_log(s, os.path.join(tmp, "l"), r)
+                    logs[f"in/comp{k}.log"] = open(os.path.join(tmp, "l")).read()
+        finally:
+            shutil.rmtree(tmp, ignore_errors=True)
+        s.meta["logs"], s.meta["clog"] = logs, ",".join(logs)
+    _write_logs(d, s.meta["logs"])
+    return s.meta["clog"]
+
+
+def _write_logs(d, logs):
+    for rel, text in logs.items():
+        p = os.path.join(d, rel)
+        if not os.path.exists(p):
+            os.makedirs(os.path.dirname(p), exist_ok=True)
+            open(p, "w").write(text)
 
 
 def argv_for(s, inp, out, opts, d, r):
     if s.meta.get("torch"):         # no FLEX-only extras on a torch profile
         opts = [o for o in opts if o not in ("rcu_util", "--comm_summarize_seq", "--flow", "--power-stats")]
     argv = ["-i", inp, "-o", out + "/o.json", "--freq", f"{s.freq}:1100.0", "-D", "0"] + opts
-    if "rcu_util" in opts and "-c" not in opts:
-        log = os.path.join(d, "in", "comp.log")
-        if not os.path.exists(log):
-            scenario.compiler_log(s, log, r)
-        argv += ["-c", "in/comp.log"]
+    if not s.meta.get("torch") and not s.meta.get("comm") and ("rcu_util" in opts or s.meta.get("mlog")):
+        argv += ["-c", comp_logs(s, d, r)]
     return argv
+
+
+def _set_out(argv, out):
+    a = list(argv)
+    a[a.index("-o") + 1] = out + "/o.json"
+    return a
 
 
 def malformed(r, d, kind):
@@ -298,11 +403,51 @@ def multi_table_case(work):
     return None
 
 
+def judge_history(d, desc, rc_fresh):
+    """ORACLE of the histories.  d holds report.json (worker), snap_hist (copy of the output directory taken at the moment
+    the target's run() returned in the process with the history) and out_fresh (the same run alone in a fresh process).
+    Every file next to the output - exported events, CSV and TXT tables - must be there when run() returns and must be
+    the one of the fresh process.  Returns "skipped" (target fails both ways) or a list of failure records."""
+    fails = []
+    hdesc = desc["history"]
+    try:
+        rep = json.load(open(os.path.join(d, "report.json")))
+    except Exception:  # noqa: BLE001
+        return [{"input": desc, "expected": "worker report", "observed": "history worker crashed",
+                 "signature": {"kind": "history_worker_crashed"}}]
+    if any(x.get("hold_at_processor", 0) != 0 for x in rep):
+        fails.append({"input": desc, "expected": "empty barrier hold when the processor of a run is built",
+                      "observed": rep, "signature": {"kind": "stale_barrier_hold_at_run_start"}})
+    a, b = canon(os.path.join(d, "snap_hist")), canon(os.path.join(d, "out_fresh"))
+    if rc_fresh != 0 and rep[-1].get("rc") != 0:
+        return fails or "skipped"
+    if a != b or rep[-1].get("rc") != rc_fresh:
+        missing = sorted(k for k in b if k not in a)
+        unexpected = sorted(k for k in a if k not in b)
+        diff = [k for k in b if k in a and a[k] != b[k]]
+        kinds = [h["kind"] for h in hdesc]
+        what = "file_missing_when_run_returns" if missing else "file_of_another_run_present" if unexpected else \
+            "content_differs" if diff else "exit_code_differs"
+        fails.append({"input": desc, "expected": "when run() returns, the files next to the output are those of the "
+                                                 "same run in a fresh process",
+                      "observed": {"missing_files": missing[:4], "unexpected_files": unexpected[:4],
+                                   "differing_files": diff[:4], "report": rep, "history_kinds": kinds,
+                                   "first_difference": _first_diff(a, b, diff)},
+                      "signature": {"kind": "differs_after_in_process_history", "what": what,
+                                    "tables": sorted({k.rsplit("_", 1)[-1] for k in missing + unexpected + diff})[:4],
+                                    "after": "jobid_collision" if "jobid_collision" in kinds else
+                                             ("aborted_run" if any(k in ("bad_counter", "be_mismatch", "freq_contradiction")
+                                                                   for k in kinds) else "other_scenario")}})
+    return fails
+
+
 def run(ctx):
     r = ctx.rng
     work = tempfile.mkdtemp(prefix="c14_", dir=ctx.work)
     fails, dist = [], {"seed_pairs": 0, "intermediate_pairs": 0, "histories": 0, "aborted_runs_in_histories": 0,
-                       "stale_hold_observed_before_run": 0, "jobid_collision_histories": 0, "options": {}}
+                       "stale_hold_observed_before_run": 0, "jobid_collision_histories": 0, "options": {},
+                       "scenario_kinds": {}, "multi_log_scenarios": 0, "summarized_multi_peer_slices": 0,
+                       "histories_same_output": 0, "histories_target_multi_log": 0}
     samples = []
     nscn = ctx.pick(36, 400)
     seeds = ["0", "1", str(r.randrange(2, 1 << 30))]
@@ -312,8 +457,13 @@ def run(ctx):
         jobs, cases = [], []
         for k in range(nscn):
             d = os.path.join(work, f"s{k}")
-            s, inp = write_scn(r, d, torch=(k % 12 == 5))
-            opts = gen_opts(r)
+            # one scenario in six each: C20's communication sequences / device multicasts of 3..6 ranks (both mostly with
+            # --comm_summarize_seq) ; one in nine: one compiler log per rank ; one in twelve: a torch profile
+            kind = "torch" if k % 12 == 5 else "comm" if k % 6 == 1 else "mcast" if k % 6 == 3 else \
+                "mlog" if k % 9 == 4 else None
+            s, inp = write_scn(r, d, kind=kind)
+            opts = scn_opts(r, s)
+            dist["scenario_kinds"][str(kind)] = dist["scenario_kinds"].get(str(kind), 0) + 1
             for o in opts:
                 dist["options"][o] = dist["options"].get(o, 0) + 1
             variants = [("seed" + sd, opts, sd) for sd in seeds] + [("interm", opts + ["-I"], "0")]
@@ -347,7 +497,11 @@ def run(ctx):
                 res["listing"] = (rc, err, canon(os.path.join(alt, "out_listing")))
             base_tag = "seed" + seeds[0]
             base = res[base_tag]
-            desc = {"files": s.files, "freq": s.freq, "opts": opts}
+            desc = {"files": s.files, "freq": s.freq, "opts": opts, "logs": s.meta.get("logs", {}),
+                    "argv": argv_for(s, inp, "@OUT", opts, d, r)}
+            if "," in s.meta.get("clog", ""):
+                dist["multi_log_scenarios"] += 1
+            dist["summarized_multi_peer_slices"] += _multi_peer(base[2]) if "--comm_summarize_seq" in opts else 0
             if all(v[0] != 0 for v in res.values()):
                 # the run fails the same way in every variant: not a C14 matter (C02 owns exit codes)
                 dist["skipped_failing_scenarios"] = dist.get("skipped_failing_scenarios", 0) + 1
@@ -382,25 +536,32 @@ def run(ctx):
         plans = []
         for k in range(nh):
             d = os.path.join(work, f"h{k}")
-            tname = [f"rank{i}_t{r.randrange(1000)}.json" for i in range(4)]
-            # every sixth history: the target is a torch profile (another dialect than the runs before it)
-            s, inp = write_scn(r, d, names=tname, torch=(k % 6 == 3))
-            opts = gen_opts(r)
+            tname = [f"rank{i}_t{r.randrange(1000)}.json" for i in range(6)]
+            # every sixth history: the target is a torch profile (another dialect than the runs before it); every fourth:
+            # one compiler log per rank; every eighth each: C20's communication sequences / device multicasts
+            tkind = "torch" if k % 6 == 3 else "mlog" if k % 4 == 1 else "comm" if k % 8 == 2 else \
+                "mcast" if k % 8 == 6 else None
+            s, inp = write_scn(r, d, names=tname, kind=tkind)
+            opts = scn_opts(r, s)
             targ = argv_for(s, inp, "out_hist", opts, d, r)
             fresh = argv_for(s, inp, "out_fresh", opts, d, r)
             os.makedirs(os.path.join(d, "out_hist"), exist_ok=True)
             os.makedirs(os.path.join(d, "out_fresh"), exist_ok=True)
+            # the runs of one process write to the SAME output name (what the default -o does) or each to its own
+            shared = r.random() < 0.6
+            dist["histories_same_output"] += shared
+            dist["histories_target_multi_log"] += "," in s.meta.get("clog", "")
             plan, hdesc = [], []
             for j in range(r.randrange(1, 4)):
                 dd = os.path.join(d, f"pre{j}")
                 u = r.random()
                 if s.meta.get("torch") and j == 0:
                     u = 0.5                 # make sure a FLEX run with the torch target's job id comes first
-                if u < 0.4:
+                if u < 0.35:
                     kind = r.choice(["bad_counter", "be_mismatch", "freq_contradiction"])
                     s2, inp2 = malformed(r, dd, kind)
                     dist["aborted_runs_in_histories"] += 1
-                elif u < 0.65:
+                elif u < 0.6:
                     # a well-formed run whose input path collides with the target's job id (different file name)
                     kind = "jobid_collision"
                     first = "in/" + list(s.files)[0]
@@ -409,19 +570,27 @@ def run(ctx):
                     dist["jobid_collision_histories"] += 1
                 else:
                     kind = "other_scenario"
-                    s2, inp2 = write_scn(r, dd)
+                    s2, inp2 = write_scn(r, dd, kind=r.choice([None, None, None, "mlog", "mlog", "comm", "mcast"]))
+                out2 = "../out_hist" if shared else "o"
                 os.makedirs(os.path.join(dd, "o"), exist_ok=True)
-                plan.append({"cwd": dd, "argv": argv_for(s2, inp2, "o", gen_opts(r), dd, r)})
-                hdesc.append({"kind": kind, "files": s2.files, "freq": s2.freq, "argv": plan[-1]["argv"]})
-            plan.append({"cwd": d, "argv": targ})
+                plan.append({"cwd": dd, "argv": argv_for(s2, inp2, out2, scn_opts(r, s2), dd, r),
+                             "out": os.path.normpath(os.path.join(dd, out2))})
+                hdesc.append({"kind": kind, "files": s2.files, "freq": s2.freq, "argv": plan[-1]["argv"],
+                              "logs": s2.meta.get("logs", {})})
+            if r.random() < 0.15:
+                # the target itself once before ("run repeatedly"), same output name
+                plan.append({"cwd": d, "argv": targ, "out": os.path.join(d, "out_hist")})
+                hdesc.append({"kind": "same_scenario", "files": {}, "freq": s.freq, "argv": targ, "logs": {},
+                              "in_target_dir": True})
+            plan.append({"cwd": d, "argv": targ, "out": os.path.join(d, "out_hist"), "snap": os.path.join(d, "snap_hist")})
             pf = os.path.join(d, "plan.json")
             json.dump(plan, open(pf, "w"))
-            plans.append((d, pf, s, opts, fresh, hdesc))
+            plans.append((d, pf, s, opts, fresh, hdesc, shared))
         wf = os.path.join(work, "worker.py")
         open(wf, "w").write(WORKER)
 
         def hist(p):
-            d, pf, s, opts, fresh, hdesc = p
+            d, pf, s, opts, fresh = p[:5]
             env = dict(os.environ, AIU_REPO=coqrun.REPO, PYTHONHASHSEED="0")
             subprocess.run(["/venv/bin/python", wf, pf, os.path.join(d, "report.json")], env=env, cwd=d,
                            stdout=subprocess.DEVNULL, stderr=subprocess.DEVNULL, timeout=600)
@@ -429,33 +598,21 @@ def run(ctx):
             return rc, err
         with ThreadPoolExecutor(max_workers=coqrun.JOBS) as ex:
             hres = list(ex.map(hist, plans))
-        for (d, pf, s, opts, fresh, hdesc), (rc, err) in zip(plans, hres):
+        for (d, pf, s, opts, fresh, hdesc, shared), (rc, err) in zip(plans, hres):
             dist["histories"] += 1
-            desc = {"target": {"files": s.files, "freq": s.freq, "opts": opts}, "history": hdesc}
+            desc = {"target": {"files": s.files, "freq": s.freq, "opts": opts, "logs": s.meta.get("logs", {}),
+                               "argv": _set_out(fresh, "@OUT")},
+                    "history": hdesc, "shared_output": shared}
+            f = judge_history(d, desc, rc)
+            if f == "skipped":
+                dist["skipped_failing_scenarios"] = dist.get("skipped_failing_scenarios", 0) + 1
+                continue
             try:
                 rep = json.load(open(os.path.join(d, "report.json")))
+                dist["stale_hold_observed_before_run"] += any(x["hold_before_run"] > 0 for x in rep)
             except Exception:  # noqa: BLE001
-                fails.append({"input": desc, "expected": "worker report", "observed": "history worker crashed",
-                              "signature": {"kind": "history_worker_crashed"}})
-                continue
-            if any(x["hold_before_run"] > 0 for x in rep):
-                dist["stale_hold_observed_before_run"] += 1
-            if any(x.get("hold_at_processor", 0) != 0 for x in rep):
-                fails.append({"input": desc, "expected": "empty barrier hold when the processor of a run is built",
-                              "observed": rep, "signature": {"kind": "stale_barrier_hold_at_run_start"}})
-            a, b = canon(os.path.join(d, "out_hist")), canon(os.path.join(d, "out_fresh"))
-            if rc != 0 and rep[-1].get("rc") != 0:
-                dist["skipped_failing_scenarios"] = dist.get("skipped_failing_scenarios", 0) + 1
-            elif a != b or rep[-1].get("rc") != rc:
-                diff = [k for k in b if a.get(k) != b[k]]
-                kinds = [h["kind"] for h in hdesc]
-                fails.append({"input": desc, "expected": "target run equals the fresh-process run",
-                              "observed": {"differing_files": diff[:4], "report": rep, "history_kinds": kinds,
-                                           "first_difference": _first_diff(a, b, diff)},
-                              "signature": {"kind": "differs_after_in_process_history",
-                                            "after": "jobid_collision" if "jobid_collision" in kinds else
-                                                     ("aborted_run" if any(k in ("bad_counter", "be_mismatch", "freq_contradiction")
-                                                                           for k in kinds) else "other_scenario")}})
+                pass
+            fails += f
     finally:
         shutil.rmtree(work, ignore_errors=True)
         for sd in shm_dirs:
@@ -485,19 +642,40 @@ def run(ctx):
     mism = [{"name": "correspondence: real EventProcessor with intermediate= vs model without -I stages (C14Model.run_plain_val)",
              "case": {"graph": gcases[j][0], "events": gcases[j][1]}, "impl": terms[j][1][:300]} for j in bad[:5]]
     nontriv = dist["seed_pairs"] + dist["intermediate_pairs"] + dist["histories"]
+    # report one failure per distinct signature (the first of each), at most four
+    shown, seen = [], set()
+    for f in fails:
+        key = json.dumps(f["signature"], sort_keys=True)
+        dist.setdefault("failures_by_kind", {})
+        dist["failures_by_kind"][f["signature"]["kind"]] = dist["failures_by_kind"].get(f["signature"]["kind"], 0) + 1
+        if key not in seen and len(shown) < 4:
+            seen.add(key)
+            shown.append(f)
     return {
         "evaluations": dist["seed_pairs"] + dist["intermediate_pairs"] + dist["histories"] + len(terms),
         "distinct_nontrivial": nontriv,
-        "rule": f"{nscn} scenarios x seeds {seeds} + -I (CLI subprocesses) ; {dist['histories']} in-process histories of 1-3 earlier "
-                "runs (other scenario / aborting scenario / job-id-colliding input) followed by the target, compared with a "
-                "fresh process; random stage graphs with intermediate= against the model without -I stages. non-trivial = "
-                "run pairs that differ in seed, -I or history (each pair is a distinct generated scenario)",
+        "rule": f"{nscn} scenarios x seeds {seeds} + -I (CLI subprocesses; kinds {dist['scenario_kinds']}) ; {dist['histories']} "
+                "in-process histories of 1-3 earlier runs (other scenario / aborting scenario / job-id-colliding input / the "
+                "target itself; same or own output name) followed by the target, output directory copied when run() returns "
+                "and compared with a fresh process; random stage graphs with intermediate= against the model without -I "
+                "stages. non-trivial = run pairs that differ in seed, -I or history (each pair is a distinct generated scenario)",
         "samples": samples + [{"history_kinds": [h["kind"] for h in plans[0][5]]}] if plans else samples,
-        "mismatches": mism, "oracle_failures": fails[:3],
+        "mismatches": mism, "oracle_failures": shown,
         "ties": [{"name": "intermediate= on the real EventProcessor = model without -I stages", "cases": len(terms),
                   "mismatching": len(bad), "coq_seconds": round(secs, 1)}],
         "distribution": dist, "traces_validated_against_impl": len(terms),
     }
+
+
+def _multi_peer(cn):
+    """how many exported slices list two or more peers (coverage figure only)"""
+    n = 0
+    for fn, text in cn.items():
+        if fn.endswith(".json") and text.startswith("["):
+            for e in json.loads(text):
+                p = (e.get("args") or {}).get("Peers") if isinstance(e, dict) else None
+                n += isinstance(p, list) and len(p) >= 2
+    return n
 
 
 def _first_diff(a, b, diff):
@@ -517,6 +695,7 @@ def _first_diff(a, b, diff):
 def _materialise(d, files):
     os.makedirs(os.path.join(d, "in"), exist_ok=True)
     for fn, evs in files.items():
+        os.makedirs(os.path.dirname(os.path.join(d, "in", fn)), exist_ok=True)
         json.dump(evs, open(os.path.join(d, "in", fn), "w"))
     return ",".join("in/" + fn for fn in files)
 
@@ -531,39 +710,46 @@ def replay(ctx, payload):
         if kind in ("differs_after_in_process_history", "stale_barrier_hold_at_run_start"):
             t = f["input"]["target"]
             d = os.path.join(work, "t")
-            inp = _materialise(d, t["files"])
+            _materialise(d, t["files"])
+            _write_logs(d, t.get("logs", {}))
             plan = []
             for j, h in enumerate(f["input"]["history"]):
-                dd = os.path.join(d, f"pre{j}")
+                dd = d if h.get("in_target_dir") else os.path.join(d, f"pre{j}")
                 _materialise(dd, h["files"])
+                _write_logs(dd, h.get("logs", {}))
                 os.makedirs(os.path.join(dd, "o"), exist_ok=True)
-                plan.append({"cwd": dd, "argv": h["argv"]})
-            base = ["-i", inp, "--freq", f"{t['freq']}:1100.0", "-D", "0"] + [o for o in t["opts"]]
-            if "rcu_util" in t["opts"]:
-                class S:
-                    truth = {}
-                scenario.compiler_log(S, os.path.join(d, "in", "comp.log"), ctx.rng)
-                base += ["-c", "in/comp.log"]
+                out = h["argv"][h["argv"].index("-o") + 1]
+                plan.append({"cwd": dd, "argv": h["argv"], "out": os.path.normpath(os.path.join(dd, os.path.dirname(out)))})
             for o in ("out_hist", "out_fresh"):
                 os.makedirs(os.path.join(d, o), exist_ok=True)
-            plan.append({"cwd": d, "argv": base + ["-o", "out_hist/o.json"]})
+            plan.append({"cwd": d, "argv": _set_out(t["argv"], "out_hist"), "out": os.path.join(d, "out_hist"),
+                         "snap": os.path.join(d, "snap_hist")})
             json.dump(plan, open(os.path.join(d, "plan.json"), "w"))
             open(os.path.join(work, "worker.py"), "w").write(WORKER)
             env = dict(os.environ, AIU_REPO=coqrun.REPO, PYTHONHASHSEED="0")
             subprocess.run(["/venv/bin/python", os.path.join(work, "worker.py"), os.path.join(d, "plan.json"),
                             os.path.join(d, "report.json")], env=env, cwd=d, stdout=subprocess.DEVNULL,
                            stderr=subprocess.DEVNULL, timeout=600)
-            cli(d, base + ["-o", "out_fresh/o.json"], "0")
-            rep = json.load(open(os.path.join(d, "report.json")))
-            a, b = canon(os.path.join(d, "out_hist")), canon(os.path.join(d, "out_fresh"))
-            stale = any(x.get("hold_at_processor", 0) != 0 for x in rep)
-            ok = (a == b) and not stale
-            return ok, {"differing_files": [k for k in b if a.get(k) != b[k]][:4], "report": rep}
+            rc, _err = cli(d, _set_out(t["argv"], "out_fresh"), "0")
+            res = judge_history(d, f["input"], rc)
+            if res == "skipped":
+                return True, "the target fails in the fresh process and after the history alike"
+            return not res, [x["observed"] if isinstance(x["observed"], str) else
+                             {k: v for k, v in x["observed"].items() if k != "report"} if isinstance(x["observed"], dict)
+                             else "stale barrier hold" for x in res]
         else:
             t = f["input"]
             d = os.path.join(work, "t")
             inp = _materialise(d, t["files"])
-            base = ["-i", inp, "--freq", f"{t['freq']}:1100.0", "-D", "0"] + list(t["opts"])
+            _write_logs(d, t.get("logs", {}))
+            if "argv" in t:
+                base = list(t["argv"])
+            else:           # the fixed two-table compiler log case
+                base = ["-i", inp, "--freq", f"{t['freq']}:{t.get('core', 1100.0)}", "-D", "0", "-o", "@OUT/o.json"] + \
+                    list(t["opts"])
+                if "@LOG" in base:
+                    open(os.path.join(d, "in", "comp.log"), "w").write(t["log_text"])
+                    base[base.index("@LOG")] = "in/comp.log"
             outs = {}
             variants = [("a", [], t.get("seeds", ["0", "1"])[0])]
             if kind == "differs_with_intermediate_dumps":
@@ -572,7 +758,7 @@ def replay(ctx, payload):
                 variants += [("b" + sd, [], sd) for sd in t.get("seeds", ["0", "1"])[1:]]
             for tag, extra, sd in variants:
                 os.makedirs(os.path.join(d, "out_" + tag), exist_ok=True)
-                cli(d, base + extra + ["-o", f"out_{tag}/o.json"], sd)
+                cli(d, _set_out(base, "out_" + tag) + extra, sd)
                 outs[tag] = canon(os.path.join(d, "out_" + tag))
             a = outs["a"]
             ok = all({k: v for k, v in o.items() if k in a} == a for o in outs.values())
